@@ -98,6 +98,9 @@ type closure struct {
 }
 
 type Exec struct {
+	patAbs        bool
+	splitEnds     map[*State][]*State
+	patSelect     bool
 	qmemo         map[*Term]bool
 	eng           *Engine
 	b             *TermBank
@@ -632,11 +635,46 @@ func (x *Exec) execBlock(st *State, list []ast.Stmt) *State {
 				}
 				ends = append(ends, x.execBlock(o, list[i+1:]))
 			}
-			return x.mergeAll(ends)
+			if fd := x.eng.funcs[x.qual]; fd != nil && fd.Body != nil && len(list) > 0 && len(fd.Body.List) == len(list) && fd.Body.List[0] == list[0] && len(x.frames) == 1 {
+				// the block is the function body: every end of a split path is
+				// a separate normal exit (postconditions are checked per exit)
+				fr := x.frame()
+				for _, e := range ends {
+					if e != nil && !x.infeasible(e) {
+						fr.returns = append(fr.returns, e)
+					}
+				}
+				return nil
+			}
+			merged := x.mergeAll(ends)
+			if merged != nil {
+				// remember the unmerged ends so that an enclosing split
+				// statement can keep the paths apart
+				if x.splitEnds == nil {
+					x.splitEnds = map[*State][]*State{}
+				}
+				x.splitEnds[merged] = x.flattenEnds(ends)
+			}
+			return merged
 		}
 	}
 	x.rawOuts = nil
 	return st
+}
+
+func (x *Exec) flattenEnds(ends []*State) []*State {
+	var out []*State
+	for _, e := range ends {
+		if e == nil {
+			continue
+		}
+		if sub, ok := x.splitEnds[e]; ok {
+			out = append(out, sub...)
+		} else {
+			out = append(out, e)
+		}
+	}
+	return out
 }
 
 // noMergeFor: the contract asked for path splitting ("nomerge") and s is a
@@ -657,7 +695,7 @@ func (x *Exec) execStmt(st *State, s ast.Stmt) *State {
 	if st != nil && x.spec == 0 && x.noSafety == 0 {
 		if c := x.eng.cf.Contracts[x.frame().qual]; c != nil && len(c.AssertBefore) > 0 && !x.infeasible(st) {
 			switch s.(type) {
-			case *ast.AssignStmt, *ast.ExprStmt, *ast.IncDecStmt, *ast.DeclStmt, *ast.ReturnStmt:
+			case *ast.AssignStmt, *ast.ExprStmt, *ast.IncDecStmt, *ast.DeclStmt, *ast.ReturnStmt, *ast.BranchStmt:
 				txt := x.eng.srcText(s)
 				for _, aa := range c.AssertBefore {
 					if strings.HasPrefix(txt, aa.Anchor) {
@@ -705,6 +743,9 @@ func (x *Exec) execStmt1(st *State, s ast.Stmt) *State {
 	if st == nil || x.infeasible(st) {
 		return nil
 	}
+	// a state that is executed further is no longer the plain merge of the
+	// split paths recorded for it
+	delete(x.splitEnds, st)
 	switch s := s.(type) {
 	case *ast.BlockStmt:
 		return x.execBlock(st, s.List)
@@ -1132,7 +1173,7 @@ func (x *Exec) execIf(st *State, s *ast.IfStmt) *State {
 	} else {
 		e = st2
 	}
-	x.rawOuts = []*State{a, e}
+	x.rawOuts = x.flattenEnds([]*State{a, e})
 	return x.mergeAll([]*State{a, e})
 }
 
@@ -1410,6 +1451,10 @@ type frameInfo struct {
 	heapAll  bool
 	heapKeys map[string]bool // key prefixes ("Struct.field", "map<..>", "cell<..>")
 	keep     func(string) bool
+	// field writes p.f = v through a pointer variable p: key "Struct.f" -> variables.
+	// instOnly holds the keys that are written in no other way.
+	instW    map[string][]*types.Var
+	instOnly map[string][]*types.Var
 }
 
 // assignedIn collects local objects assigned in a node and the heap
@@ -1459,6 +1504,20 @@ func (x *Exec) assignedIn(n ast.Node) *frameInfo {
 			if t := x.eng.info.TypeOf(e.X); t != nil {
 				if p, isPtr := t.Underlying().(*types.Pointer); isPtr {
 					sn := structName(p.Elem())
+					if id, isId := unparen(e.X).(*ast.Ident); isId {
+						if v, isVar := x.eng.info.Uses[id].(*types.Var); isVar && v.Parent() != x.eng.pkg.Types.Scope() && !v.IsField() {
+							if fi.instW == nil {
+								fi.instW = map[string][]*types.Var{}
+							}
+							fi.instW[sn+"."+e.Sel.Name] = append(fi.instW[sn+"."+e.Sel.Name], v)
+							for _, g := range x.eng.cf.OnWrite {
+								if g.matches(sn, e.Sel.Name) {
+									fi.heapKeys["global.ghost."+g.Ghost] = true
+								}
+							}
+							return
+						}
+					}
 					fi.heapKeys[sn+"."+e.Sel.Name] = true
 					for _, g := range x.eng.cf.OnWrite {
 						if g.matches(sn, e.Sel.Name) {
@@ -1511,7 +1570,55 @@ func (x *Exec) assignedIn(n ast.Node) *frameInfo {
 		}
 		return true
 	})
+	// field writes through pointer variables: keys written in no other way are
+	// remembered so that a loop can forget just those objects' fields
+	for key, vars := range fi.instW {
+		if fi.heapAll || fi.matches(key) {
+			continue
+		}
+		if fi.instOnly == nil {
+			fi.instOnly = map[string][]*types.Var{}
+		}
+		fi.instOnly[key] = vars
+	}
+	for key := range fi.instW {
+		fi.heapKeys[key] = true
+	}
 	return fi
+}
+
+// callArgVar: base is the callee's receiver or parameter name and the call
+// passes a local pointer variable for it; returns that variable.
+func (x *Exec) callArgVar(c *ast.CallExpr, callee *types.Func, base ast.Expr) *types.Var {
+	id, ok := base.(*ast.Ident)
+	if !ok {
+		return nil
+	}
+	sig := callee.Type().(*types.Signature)
+	var actual ast.Expr
+	if r := sig.Recv(); r != nil && r.Name() == id.Name {
+		if sel, ok := unparen(c.Fun).(*ast.SelectorExpr); ok {
+			actual = sel.X
+		}
+	} else {
+		for i := 0; i < sig.Params().Len() && i < len(c.Args); i++ {
+			if sig.Params().At(i).Name() == id.Name {
+				actual = c.Args[i]
+			}
+		}
+	}
+	if actual == nil {
+		return nil
+	}
+	aid, ok := unparen(actual).(*ast.Ident)
+	if !ok {
+		return nil
+	}
+	v, ok := x.eng.info.Uses[aid].(*types.Var)
+	if !ok || v.IsField() || v.Parent() == x.eng.pkg.Types.Scope() {
+		return nil
+	}
+	return v
 }
 
 // callFrame adds the write frame of a call.
@@ -1608,7 +1715,7 @@ func (x *Exec) callFrame(c *ast.CallExpr, fi *frameInfo) {
 					}
 				}
 			}
-			if len(ct.Modifies) == 0 && len(ct.Effects) == 0 && !ct.Pure && !ct.Trusted {
+			if len(ct.Modifies) == 0 && len(ct.Effects) == 0 && len(ct.InstMods) == 0 && !ct.Pure && !ct.Trusted {
 				fi.heapAll = true
 			}
 			for _, m := range ct.Modifies {
@@ -1617,6 +1724,21 @@ func (x *Exec) callFrame(c *ast.CallExpr, fi *frameInfo) {
 				} else {
 					fi.heapKeys[strings.TrimSuffix(m, ".*")] = true
 				}
+			}
+			for _, im := range ct.InstMods {
+				// BASE->field with BASE the receiver or a parameter, passed a
+				// pointer variable by this call: an instance write of that variable
+				if v := x.callArgVar(c, callee, im.Base); v != nil {
+					if p, isPtr := v.Type().Underlying().(*types.Pointer); isPtr {
+						if fi.instW == nil {
+							fi.instW = map[string][]*types.Var{}
+						}
+						k := structName(p.Elem()) + "." + im.Field
+						fi.instW[k] = append(fi.instW[k], v)
+						continue
+					}
+				}
+				fi.heapKeys["*."+im.Field] = true
 			}
 			for _, ef := range ct.Effects {
 				if sel, ok := ef.LHS.(*ast.SelectorExpr); ok {
@@ -1727,7 +1849,47 @@ func (x *Exec) havocLoopTargets(st *State, spec *LoopSpec, body ast.Node, extra 
 	}
 	if len(fi.heapKeys) > 0 {
 		// make sure arrays that will be written exist, then havoc the matching ones
+		// instance-level: p.f written only through pointer variables that the
+		// loop does not reassign -> forget just those cells
+		precise := map[string]bool{}
+		for key, vars := range fi.instOnly {
+			ok := len(vars) > 0
+			var refs []*Term
+			for _, v := range vars {
+				cur, have := st.env[v]
+				if fi.objs[v] || !have || cur.L == nil || kindOf(cur.T) != kRef {
+					ok = false
+					break
+				}
+				refs = append(refs, cur.scalar())
+			}
+			if !ok || x.isImmutableKey(key) || x.isStableKey(key) {
+				continue
+			}
+			p, _ := vars[0].Type().Underlying().(*types.Pointer)
+			if p == nil {
+				continue
+			}
+			fname := key[strings.LastIndex(key, ".")+1:]
+			ft := x.fieldType(p.Elem(), fname)
+			if ft == nil {
+				continue
+			}
+			for _, l := range x.leavesOf(ft) {
+				k := join(key, l.path)
+				arr := x.heapArr(st, k, l.sort)
+				for _, r := range refs {
+					arr = x.b.Store(arr, r, x.b.Fresh("hv."+k, l.sort))
+				}
+				st.heap[k] = arr
+				precise[k] = true
+			}
+			precise[key] = true
+		}
 		for k, a := range st.heap {
+			if precise[k] {
+				continue
+			}
 			if fi.matches(k) && (fi.heapKeys[k] || !(x.isImmutableKey(k) || x.isStableKey(k))) {
 				st.heap[k] = x.b.Fresh("H."+k, a.Sort)
 			}
